@@ -169,7 +169,7 @@ impl Property for C06 {
     const ID: &'static str = "C06";
     const RULE: &'static str = "proptest-generated payload x coding {gzip, raw deflate, unknown/absent token} x encoder {flate2 level 0..9 with sync/full flushes, hand-written stored blocks incl. empty ones, \
 hand-written fixed-Huffman, mixed} x gzip header options x declaration {Content-Encoding, Transfer-Encoding: c, chunked} x token case/list x method x framing x segmentation x read plan x fault {none, every truncation \
-offset of small streams, random truncation, each bit of the gzip trailer}; oracle: undamaged -> delivered == payload; other coding -> delivered == body bytes; damaged -> Err and delivered is a prefix. \
+offset of small streams, random truncation, each bit of the gzip trailer}; oracle: undamaged -> delivered == payload; other coding -> delivered == body bytes; damaged -> Err and delivered is a prefix; the Content-Encoding list and Content-Length are reported as sent. \
 non-trivial = payload non-empty and one of {>=2 deflate blocks, >=2 segments, a fault, optional gzip header fields}";
 
     fn assumptions() -> Vec<String> {
